@@ -73,6 +73,31 @@ ExtendOp(cnt) ==
   /\ needPoll' = TRUE /\ quiesced' = FALSE
   /\ UNCHANGED <<cfg, pc, cur, gen, wokenL, started, final, nfire, nstale, nspur, ninfire, seen, conc>>
 
+\* FromIterator (`collect()` into a group): the group the caller starts with is built from an iterator.
+\*   FutureGroup::from_iter = new() + extend(iter)            (future_group.rs: capacity 0, reserve(len), inserts)
+\*   StreamGroup::from_iter = with_capacity(len) + insert*    (stream_group.rs)
+\* The caller learns no keys.  Only while nothing has happened to the group (the harness replaces the pristine group).
+FromIterOp(cnt) ==
+  /\ pc = "idle" /\ ~started /\ Cardinality(Ch) = 0 /\ fs.nins = 0 /\ fs.nrem = 0 /\ fs.nres = 0
+  /\ "maxFromIter" \in DOMAIN cfg /\ cnt <= cfg.maxFromIter /\ cnt <= cfg.maxIns
+  /\ LET c0 == 0
+         cap0 == IF IsSG THEN cnt ELSE 0
+         base == FsInit([n |-> cap0])
+         r0 == RInit(cap0)
+         g0 == IF IsSG THEN <<base, r0>> ELSE Reserve(base, r0, cnt)
+         RECURSIVE Many(_, _, _)
+         Many(f, r, i) == IF i = cnt THEN <<f, r>> ELSE LET x == InsertCore(f, r, c0 + i) IN Many(x[1], x[2], i + 1)
+         g == Many(g0[1], g0[2], 0)
+         f2 == [g[1] EXCEPT !.nins = @ + cnt]
+         newc == c0..(c0 + cnt - 1)
+     IN /\ fs' = f2 /\ rd' = g[2]
+        /\ ans' = ans @@ [c \in newc |-> "new"] /\ alive' = alive @@ [c \in newc |-> TRUE]
+        /\ pend' = pend @@ [c \in newc |-> 0] /\ nit' = nit @@ [c \in newc |-> 0] /\ polls' = polls @@ [c \in newc |-> 0]
+        /\ handed' = handed @@ [c \in newc |-> <<>>] /\ firedL' = firedL @@ [c \in newc |-> FALSE]
+        /\ Emit(<<[e |-> "fromiter", n |-> cnt]>> \o [i \in 1..cnt |-> [e |-> "insert", c |-> c0 + i - 1, key |-> -1]] \o <<EvView(f2)>>)
+  /\ needPoll' = TRUE /\ quiesced' = FALSE
+  /\ UNCHANGED <<cfg, pc, cur, gen, wokenL, started, final, nfire, nstale, nspur, ninfire, seen, conc>>
+
 Insert ==
   /\ pc = "idle" /\ fs.nins < cfg.maxIns
   /\ LET c == Cardinality(Ch)                      \* the new member's child id
@@ -197,6 +222,7 @@ ChildPanic == PanicWith(DropEvents)
 Next == EnvNext \/ PollBegin \/ ScanStep \/ ChildAnswer \/ ChildPanic \/ Drop
         \/ Insert \/ (\E a \in 0..(IF TraceMode THEN 8 ELSE 2) : ReserveOp(a)) \/ (\E k \in Range(fs.ever) : Remove(k))
         \/ (\E n \in 1..3 : ExtendOp(n))
+        \/ (\E n \in 1..4 : FromIterOp(n))
 NextLive == Next \/ \E c \in Ch : OwedWake(c)
 Spec == Init /\ [][Next]_vars
 LiveSpec == Init /\ [][NextLive]_vars
